@@ -42,6 +42,7 @@ fn main() {
         "prep" => |t| front::prep(&t[1..]),
         "diags" => |t| front::diags(&t[1..]),
         "dump" => |t| dump::dump(&t[1..]),
+        "visit" => |t| dump::visit(&t[1..]),
         _ => {
             eprintln!("unknown component {comp}");
             std::process::exit(2);
